@@ -66,6 +66,12 @@ def templates(tier):
                                       [['grp', [P(SENT), ['c', ck[0], ck[1]]], [P(m)], [P(t)]], P(OK)]], P(OK)]
   for m0, ck, m, t in itertools.product(M_ALPHA[:3], [('all', 'stop'), ('last', 'stop')], M_ALPHA[:3], T_ALPHA[:2]):
     yield 'ckpt-setup', [P({'ret': ['ok'], 'plug': True}), P(m0), ['grp', [P(SENT), ['c', ck[0], ck[1]]], [P(m)], [P(t)]], P(OK)]
+  # profiled runs with bodies that also ignore the termination request (their thread is left behind alive)
+  DEAF = {'ret': ['hangdeaf']}
+  for s, m1, m2, t1 in itertools.product(S_ALPHA[:1], [OK, DEAF, {'ret': ['hang']}, {'ret': ['raise']}], [OK, DEAF], T_ALPHA[:3] + [DEAF]):
+    yield 'profiled', [G([s], [P(m1), P(m2)], [P(t1), P(OK)]), P(OK)]
+  for m0, t0, m, t in itertools.product([OK, DEAF], [OK, DEAF], [OK, DEAF], [OK, DEAF]):
+    yield 'profiled-in-teardown', [G([], [P(m0)], [P(t0), G([OK], [P(m)], [P(t)]), P(OK)]), P(OK)]
   if tier == 'thorough':
     for m0, s, m, t, s2, m2, t2, ot in itertools.product(M_ALPHA[:4], S_ALPHA, M_ALPHA[:4], T_ALPHA, S_ALPHA, M_ALPHA[:4], T_ALPHA, T_ALPHA[:3]):
       yield 'two-in-main', [G([], [P(m0), G([s], [P(m)], [P(t)]), G([s2], [P(m2)], [P(t2)])], [P(ot)]), P(OK)]
@@ -152,7 +158,14 @@ def check_groups(spec, obs):
               bad.append(('teardown-after-plug-teardown', 'teardown %s of %s ran after plug tearDown' % (t, n['name'])))
           # teardown nodes that are not phases are "executed" when they are evaluated: exactly one record each
           for c in n['teardown']:
-            if c['k'] == 'br':
+            if c['k'] == 'grp':
+              # a group among the teardown nodes is executed like any other teardown node: its setup starts, once
+              first = leaves(c['setup'])[:1]
+              cnt = len(pos.get(first[0], [])) if first else 1
+              if cnt != 1:
+                bad.append(('teardown-group-count', 'group %s was entered but the group %s among its teardown nodes was started %d times'
+                            % (n['name'], c['name'], cnt)))
+            elif c['k'] == 'br':
               cnt = sum(1 for b in obs.get('branches', []) if b[0] == c['name'])
               if cnt != 1:
                 bad.append(('teardown-branch-count', 'group %s was entered but its teardown branch %s was evaluated %d times'
@@ -196,8 +209,10 @@ def _work(item):
     n += 1
     # CONF.capture_source makes Test() rebuild the node tree (load_code_info): every 3rd template also runs that way
     settings = {'capture_source': True} if (i % 3 == 0 or label.startswith('no-main')) and i % 2 == 0 else {}
+    if label.startswith('profiled'):
+      settings = {'profile': True}
     obs = progs.run_spec(spec, settings)
-    if settings:
+    if settings.get('capture_source'):
       label += '+capture_source'
     bad = check_groups(spec, obs)
     if str(obs.get('ret')).startswith('EXC:'):
@@ -207,7 +222,7 @@ def _work(item):
       sample = {'template': label, 'program': sig(spec), 'calls': obs['calls'], 'outcome': obs.get('outcome')}
     for kind, what in bad:
       viols.append(('programs:%s:%s:%s' % (kind, label, sig(spec)), '%s %s: %s (calls %r)' % (label, sig(spec), what, obs['calls']),
-                    {'part': 'programs', 'spec': spec}))
+                    {'part': 'programs', 'spec': spec, 'settings': settings}))
   return n, viols, len(outcomes), sample
 
 
@@ -243,7 +258,7 @@ def replay(art):
   if r.get('part') == 'schedules':
     from vf.harness import c03_sched  # pylint: disable=g-import-not-at-top
     return c03_sched.replay(r)
-  obs = progs.run_spec(r['spec'])
+  obs = progs.run_spec(r['spec'], r.get('settings') or {})
   print('calls', obs['calls'])
   print('phases', [(p[0], p[1], p[2]) for p in obs.get('phases', [])], 'outcome', obs.get('outcome'))
   bad = check_groups(r['spec'], obs)
